@@ -272,8 +272,20 @@ pub fn generate(seed: u64, tier: &str) -> Vec<Case> {
         } else {
             *r.pick(&lens[..7])
         };
-        let kind = if id % 50 == 7 { 6 } else { r.below(6) };
+        let kind = if id % 50 == 7 { 6 } else if id % 50 == 13 { 7 } else { r.below(6) };
         let (win, ops): (Vec<u8>, Vec<(bool, u8)>) = match kind {
+            // a window grown by appends from (almost) nothing to hundreds of times its initial length, then slid for
+            // thousands of steps with large outgoing bytes: state that is fixed at construction and not refreshed by
+            // `push` (a cached multiple of the length, a capacity) is stale by then
+            7 => {
+                let seed_len = *r.pick(&[0usize, 1, 2, 8]);
+                let w = gen_bytes(&mut r, Law::High, seed_len);
+                let grow = *r.pick(&[300usize, 2048, 4000]);
+                let slides = if thorough { 9000 } else { 5600 };
+                let mut ops: Vec<(bool, u8)> = gen_bytes(&mut r, Law::High, grow).into_iter().map(|b| (false, b)).collect();
+                ops.extend(gen_bytes(&mut r, Law::High, slides).into_iter().map(|b| (true, b)));
+                (w, ops)
+            }
             // periodic stream over a window at / just above the modulus: every slide pushes back the byte it drops, so the
             // byte sum keeps its (small) residue while the weighted sum moves - thousands of slides in the corner above
             6 => {
